@@ -281,11 +281,8 @@ impl Links {
         } = self;
         let lane_ids = backwards.remove(&id).unwrap_or_default();
         for lane_id in lane_ids {
-            if let Entry::Occupied(mut entry) = forward.entry(lane_id) {
-                entry.get_mut().remove(&id, total_count);
-                if entry.get().is_empty() {
-                    entry.remove();
-                }
+            if let Some(links) = forward.get_mut(&lane_id) {
+                links.remove(&id, total_count);
             }
         }
         if let Some(reporter) = aggregate_reporter {
